@@ -35,6 +35,7 @@ class Check:
         shutil.rmtree(self.work, ignore_errors=True)
         os.makedirs(self.work, exist_ok=True)
         self.replays = os.path.join(VERIF, "replays", pid)
+        shutil.rmtree(self.replays, ignore_errors=True)
         os.makedirs(self.replays, exist_ok=True)
         self.cov = {"states": 0, "transitions": 0, "traces_validated_against_impl": 0, "samples": [],
                     "evaluations": 0, "distinct_nontrivial": 0, "rule": "", "tlc_runs": [], "replayed_behaviours": 0}
@@ -414,3 +415,51 @@ def toy_traces(chk, curve, kind, n, flags, what, cfgname="Trace", name=None, pro
     if progs:
         chk.sample({"curve": curve, "program": progs[min(3, len(progs) - 1)], "outcome": sums[min(3, len(sums) - 1)]})
     return progs, sums, rej
+
+
+def validate_aux(chk, trace_file, curve, jobs=12, timeout=1500, what="aux"):
+    """Validate a stateless-component trace (TraceAux.tla): events are independent, so a rejected event is cut out and the
+    rest validated again. Returns (events_accepted, rejected_events)."""
+    events = read_ndjson(trace_file)
+    if not events:
+        raise ToolError("empty trace %s" % trace_file)
+    n = max(1, min(jobs, len(events) // 200 or 1))
+    chunks = [events[i::n] for i in range(n)]
+    rejected, accepted = [], 0
+    pending = list(enumerate(chunks))
+    rnd = 0
+    while pending and rnd <= 5:
+        args = []
+        for i, ch in pending:
+            p = chk.path("aux_%s_%d_%d.ndjson" % (curve, i, rnd))
+            write_ndjson(p, ch)
+            args.append((p, curve, {}, chk.path("tva_%s_%d_%d" % (curve, i, rnd)), timeout, "TraceAux"))
+
+        def one(a):
+            path, curve_, flags_, metadir, to, cfgname = a
+            return tlc("TraceAux.tla", "%s_%s.cfg" % (cfgname, curve_), metadir, workers=1, env={"TRACE": path}, timeout=to)
+
+        with cf.ThreadPoolExecutor(max_workers=jobs) as ex:
+            results = list(ex.map(one, args))
+        nxt = []
+        for (i, ch), a, r in zip(pending, args, results):
+            os.remove(a[0])
+            chk.cov["transitions"] += r["states"]
+            if r["timeout"]:
+                raise ToolError("TLC timed out on an aux trace")
+            if r["error"] is None and r["depth"] == len(ch) + 1:
+                accepted += len(ch)
+                continue
+            m = re.search(r'"first unmatched event",\s*(\d+)', r["out"])
+            if not m:
+                log(r["out"][-3000:])
+                raise ToolError("TLC failed while validating an aux trace: %s" % r["error"])
+            idx = int(m.group(1))
+            rejected.append(ch[idx - 1])
+            accepted += idx - 1
+            if ch[idx:]:
+                nxt.append((i, ch[idx:]))
+        pending = nxt
+        rnd += 1
+    chk.cov["traces_validated_against_impl"] += accepted
+    return accepted, rejected
